@@ -197,22 +197,62 @@ inductive Tok where
   | star
   | any
   | lit (c : Nat)
-  | cls (neg : Bool) (set : Str)
+  | cls (neg : Bool) (chunks : List Str)
   deriving DecidableEq, Repr
 
-/-- after `[`: `some (negated, set text, rest after the closing bracket)`, `none` when there is no
-    closing bracket (`[` is then a literal).  `j` skips a leading `!` and a leading `]`. -/
-def splitClass (p : Str) : Option (Bool × Str × Str) :=
+/-- after `[`: `some (stuff, rest after the closing bracket)`, `none` when there is no closing
+    bracket (`[` is then a literal).  `j` skips a leading `!` and a leading `]`; `stuff` keeps them. -/
+def splitClass (p : Str) : Option (Str × Str) :=
   let (neg, p1) := match p with
-    | 33 :: r => (true, r)
-    | r => (false, r)
+    | 33 :: r => ([33], r)
+    | r => ([], r)
   let (first, p2) := match p1 with
     | 93 :: r => ([93], r)
     | r => ([], r)
   let body := p2.takeWhile (· ≠ 93)
   match p2.dropWhile (· ≠ 93) with
   | [] => none
-  | _ :: rest => some (neg, first ++ body, rest)
+  | _ :: rest => some (neg ++ first ++ body, rest)
+
+/-- the `while True: k = pat.find('-', k, j) …` loop of `translate`: a hyphen splits the bracket body
+    only when `skip` characters of the current chunk have gone by (1 for the first chunk, 2 after a
+    leading `!` and in every later chunk: `k = k + 3`); the last element is `pat[i:j]` -/
+def chunkSplit : Nat → Str → Str → List Str
+  | _, cur, [] => [cur]
+  | skip, cur, c :: r =>
+    if skip = 0 ∧ c = 45 then cur :: chunkSplit 2 [] r
+    else chunkSplit (skip - 1) (cur ++ [c]) r
+
+/-- `if chunk: chunks.append(chunk) else: chunks[-1] += '-'` -/
+def chunkClose (cs : List Str) : List Str :=
+  match cs.getLast? with
+  | some [] => match cs.dropLast with
+    | [] => cs
+    | ds => ds.dropLast ++ [ds.getLast?.getD [] ++ [45]]
+  | _ => cs
+
+/-- "remove empty ranges": `for k in range(len(chunks)-1, 0, -1): if chunks[k-1][-1] > chunks[k][0]:
+    chunks[k-1] = chunks[k-1][:-1] + chunks[k][1:]; del chunks[k]` (pairs handled right to left) -/
+def chunkMerge : List Str → List Str
+  | [] => []
+  | [c] => [c]
+  | c :: d :: r =>
+    match chunkMerge (d :: r) with
+    | [] => [c]
+    | d' :: ds =>
+      match c.getLast?, d'.head? with
+      | some a, some b => if a > b then (c.dropLast ++ d'.tail) :: ds else c :: d' :: ds
+      | _, _ => c :: d' :: ds
+
+/-- the bracket body as `translate` leaves it: negated (the *resulting* text starts with `!`), and
+    the chunks whose joining hyphens are the range operators of the regular expression; every other
+    character (escaped hyphens and backslashes, `&~|`, a leading `^` or `[`) is a literal.  An empty
+    result never matches (`(?!)`), a bare `!` matches every character (`.`). -/
+def classOf (stuff : Str) : Bool × List Str :=
+  let cs := chunkMerge (chunkClose (chunkSplit (if stuff.head? = some 33 then 2 else 1) [] stuff))
+  match cs with
+  | (33 :: c) :: r => (true, c :: r)
+  | _ => (false, cs)
 
 /-- pattern → tokens; `fuel` bounds the number of tokens (`pat.length` is enough) -/
 def tokenize : Nat → Str → List Tok
@@ -223,15 +263,20 @@ def tokenize : Nat → Str → List Tok
   | n + 1, 91 :: r =>
     match splitClass r with
     | none => .lit 91 :: tokenize n r
-    | some (neg, set, rest) => .cls neg set :: tokenize n rest
+    | some (stuff, rest) => .cls (classOf stuff).1 (classOf stuff).2 :: tokenize n rest
   | n + 1, c :: r => .lit c :: tokenize n r
 
-/-- membership in a bracket set: `x-y` is a range unless the hyphen is the first or last
-    character of the set or follows a range end; a range with `x > y` is empty -/
-def inSet (c : Nat) : Str → Bool
+/-- membership in `[c0-c1-…]`: the characters of the chunks, and the range from the last character
+    of a chunk to the first of the next one; a chunk left empty by the removal of a leading `!`
+    makes the hyphen after it a literal -/
+def inSet (c : Nat) : List Str → Bool
   | [] => false
-  | x :: 45 :: y :: r => (x ≤ c && c ≤ y) || inSet c r
-  | x :: r => c == x || inSet c r
+  | [x] => x.contains c
+  | x :: y :: r =>
+    x.contains c ||
+    (match x.getLast?, y.head? with
+     | some a, some b => a ≤ c && c ≤ b
+     | _, _ => c == 45) || inSet c (y :: r)
 
 /-- `STAR fixed…`: try the continuation at every suffix -/
 def starLoop (k : Str → Bool) : Str → Bool
